@@ -323,7 +323,8 @@ fn pick_kind(t: &mut Tape, mode: u8, adversarial: bool) -> u8 {
     match (mode, adversarial) {
         (3, false) => *t.pick(&[0u8, 0, 0, 3, 3]),
         (3, true) => *t.pick(&[0u8, 0, 3, 3, 1, 2]),
-        (_, false) => *t.pick(&[0u8, 0, 0, 1, 1, 2]),
+        // (the decoder keeps a hold-note line in any mode: the non-mania calculators treat it as a spinner)
+        (_, false) => *t.pick(&[0u8, 0, 0, 1, 1, 2, 0, 0, 0, 1, 1, 2, 0, 0, 0, 1, 1, 2, 3]),
         (_, true) => *t.pick(&[0u8, 0, 1, 1, 2, 3]),
     }
 }
